@@ -274,4 +274,251 @@ def b_rearr(c):
     return f, x, {}
 
 
-BUILDERS = {"rearr": b_rearr, "binary": b_binary, "where": b_where, "reduce": b_reduce, "cum": b_cum, "unary": b_unary}
+# ----------------------------------------------------------------------------- joins
+def b_join(c):
+    prim, st = c["prim"], c["st"]
+    s = tuple(c["s"])
+    n, mask = c["ia"], c["ib"]
+    if mask >= (1 << n):
+        raise Skip("mask beyond operand count")
+    ax = axis_arg(c["ax"])
+    x = data(s) if s else 1.3
+    consts = [data(s, 0.5, 1.5, 3 + 4 * i) if s else 0.7 + i for i in range(n)]
+
+    def ops(v):
+        return [v if (mask >> i) & 1 else consts[i] for i in range(n)]
+
+    def seq(v):
+        o = ops(v)
+        return tuple(o) if st == "tuple" else o
+    if prim == "concatenate":
+        f = (lambda v: np.concatenate(seq(v), axis=ax)) if c["ax"]["k"] != "none" else (lambda v: np.concatenate(seq(v), axis=None))
+    elif prim == "stack":
+        f = lambda v: np.stack(seq(v), axis=ax)
+    elif prim in ("vstack", "hstack", "column_stack", "row_stack"):
+        if prim == "row_stack" and not hasattr(onp, "row_stack"):
+            raise Skip("no row_stack")
+        f = lambda v: getattr(np, prim)(seq(v))
+    elif prim == "append":
+        f = lambda v: np.append(ops(v)[0], ops(v)[1], axis=ax)
+    elif prim == "array":
+        if st == "list":
+            f = lambda v: np.array(ops(v))
+        elif st == "nested":
+            f = lambda v: np.array([ops(v), ops(v)[::-1]])
+        elif st == "ndmin":
+            f = lambda v: np.array(ops(v)[0], ndmin=4)
+        elif st == "bare":
+            f = lambda v: np.array(ops(v)[0])
+        else:
+            f = lambda v: np.array(ops(v))
+    elif prim == "r_":
+        f = lambda v: np.r_[tuple(ops(v))]
+    elif prim == "c_":
+        f = lambda v: np.c_[tuple(ops(v))]
+    elif prim == "select":
+        cond1 = data(s, 0.0, 1.0, 2) > 0.6
+        cond2 = data(s, 0.0, 1.0, 9) > 0.4
+        f = lambda v: np.select([cond1, cond2], [(v if mask & 1 else consts[0]) * 2.0, (v if mask & 2 else consts[1]) * 3.0],
+                                default=(v if mask & 4 else 0.25))
+    else:
+        raise Skip("no template for " + prim)
+    return f, x, {}
+
+
+# ----------------------------------------------------------------------------- contractions
+def b_contract(c):
+    prim, form, st, argnum, kind = c["prim"], c["form"], c["st"], c["argnum"], c["kind"]
+    sa, sb = tuple(c["s"]), tuple(c["s2"])
+    ca = (kind[0] == "c") if argnum == 0 else (kind[1] == "c")
+    cb = (kind[1] == "c") if argnum == 0 else (kind[0] == "c")
+    a = data(sa, 0.3, 2.7, 0, ca)
+    b = data(sb, 0.4, 1.9, 5, cb)
+    tp = list(c["tp"])
+    if prim == "einsum":
+        if not sb and "," not in st:
+            f2 = lambda u: np.einsum(st, u)
+            return f2, a, {}
+        if form == "list":
+            # (op0, sublist0, op1, sublist1, sublistout) convention, ellipsis supported
+            if "->" not in st:
+                raise Skip("list form needs explicit output")
+            ins, out = st.split("->")
+            i0, i1 = ins.split(",")
+            letters = sorted(set(st) - set(",->."))
+            num = {ch: k for k, ch in enumerate(letters)}
+
+            def sub(t):
+                o = []
+                k = 0
+                while k < len(t):
+                    if t[k] == ".":
+                        o.append(Ellipsis)
+                        k += 3
+                    else:
+                        o.append(num[t[k]])
+                        k += 1
+                return o
+            call = lambda u, v: np.einsum(u, sub(i0), v, sub(i1), sub(out))
+        else:
+            call = lambda u, v: np.einsum(st, u, v)
+    elif prim == "tensordot":
+        if st == "int":
+            axes = c["ia"]
+        elif st == "intpair":
+            axes = (tp[0], tp[1])
+        else:
+            h = len(tp) // 2
+            axes = (tp[:h], tp[h:])
+        call = lambda u, v: np.tensordot(u, v, axes)
+    elif prim == "cross":
+        kw = {"-": {}, "axis0": {"axis": 0}, "axis-1": {"axis": -1}, "axisa0": {"axisa": 0}}[st]
+        call = lambda u, v: np.cross(u, v, **kw)
+    elif prim == "matmul" and form == "op":
+        call = lambda u, v: u @ v
+    elif prim == "dot" and form == "method":
+        call = lambda u, v: u.dot(v)
+    else:
+        call = lambda u, v: getattr(np, prim)(u, v)
+    if argnum == 0:
+        f, x = (lambda u: call(u, b)), a
+    else:
+        f, x = (lambda v: call(a, v)), b
+    if onp.ndim(x) == 0:
+        x = onp.array(x) if c["id"] % 2 else (complex(x) if onp.iscomplexobj(x) else float(x))
+    return f, x, {}
+
+
+# ----------------------------------------------------------------------------- index expressions
+def b_index(c):
+    s = tuple(c["s"])
+    x = data(s)
+    items = []
+    dim = 0
+    for it in c["tp"]:
+        t = it["t"]
+        if t == "int":
+            items.append(it["v"])
+            dim += 1
+        elif t == "slice":
+            items.append(slice(*[None if q == 9 else q for q in it["v"]]))
+            dim += 1
+        elif t == "ell":
+            items.append(Ellipsis)
+        elif t == "new":
+            items.append(None)
+        elif t == "arr":
+            items.append(onp.array(it["v"]))
+            dim += 1
+        elif t == "list":
+            items.append(list(it["v"]))
+            dim += 1
+        elif t == "arr2":
+            items.append(onp.array(it["v"]).reshape(2, 2))
+            dim += 1
+        elif t == "mask":
+            # a boolean mask over the axis this item lands on (only known when no ellipsis precedes it)
+            if any(j["t"] == "ell" for j in c["tp"]):
+                raise Skip("mask after ellipsis")
+            if dim >= len(s):
+                raise Skip("mask beyond rank")
+            m = [bool(b) for b in it["v"]] + [True] * (s[dim] - len(it["v"]))
+            items.append(onp.array(m[:s[dim]]))
+            dim += 1
+        elif t == "maskfull":
+            items.append(data(s, 0.0, 1.0, 4) > 0.45)
+    st = c["st"]
+    if st == "bare":
+        idx = items[0]
+    elif st == "list":
+        idx = items[0]
+    else:
+        idx = tuple(items)
+    return (lambda v: v[idx]), x, {}
+
+
+# ----------------------------------------------------------------------------- linalg
+def _sym(v):
+    return (v + np.swapaxes(v, -1, -2)) / 2.0
+
+
+def b_linalg(c):
+    prim, st, kind = c["prim"], c["st"], c["kind"]
+    la = np.linalg
+    cplx = kind == "cc"
+    if prim == "norm":
+        x = data(tuple(c["s"]), 0.3, 2.7, 0, cplx)
+        ax = axis_arg(c["ax"])
+        o = {"none": None, "2": 2, "3": 3, "1": 1, "inf": onp.inf, "-inf": -onp.inf, "fro": "fro", "nuc": "nuc", "0.5": 0.5}[st]
+        return (lambda v: la.norm(v, o, ax, c["kd"])), x, {}
+    batch = tuple(c["s"])
+    n, m = c["ia"], c["ib"] or c["ia"]
+    M = data(batch + (n, m), 0.5, 2.5, 0, cplx)
+    if n == m:
+        M = M + 2.0 * onp.eye(n)
+    out = c["tp"][0] if c["tp"] else 0
+    if prim == "det":
+        return (lambda v: la.det(v)), M, {}
+    if prim == "slogdet":
+        return (lambda v: la.slogdet(v)[1]), M, {}
+    if prim == "inv":
+        return (lambda v: la.inv(v)), M, {}
+    if prim == "pinv":
+        return (lambda v: la.pinv(v)), M, {}
+    if prim == "solve":
+        bshape = batch + ((n,) if st == "vec" else (n, 2))
+        if st == "vec" and batch:
+            raise Skip("vector right-hand side with batch dimensions is ambiguous in NumPy 2")
+        B = data(bshape, 0.3, 1.2, 4, cplx)
+        if c["argnum"] == 0:
+            return (lambda v: la.solve(v, B)), M, {}
+        return (lambda y: la.solve(M, y)), B, {}
+    # symmetric positive definite input, differentiated through an explicit symmetrisation
+    A = data(batch + (n, n), 0.1, 1.0, 2)
+    S = A @ onp.swapaxes(A, -1, -2) + n * onp.eye(n) + onp.diag(onp.arange(n) * 0.7)
+    if prim == "cholesky":
+        return (lambda v: la.cholesky(_sym(v))), S, {}
+    if prim == "eigh":
+        kw = () if st == "default" else (st,)
+        if out == 0:
+            return (lambda v: la.eigh(_sym(v), *kw)[0]), S, {}
+        return (lambda v: la.eigh(_sym(v), *kw)[1] ** 2), S, {}
+    if prim == "eig":
+        if out == 0:
+            return (lambda v: np.real(la.eig(_sym(v))[0])), S, {}
+        return (lambda v: np.real(la.eig(_sym(v))[1]) ** 2), S, {}
+    if prim == "svd":
+        R = data(batch + (n, m), 0.5, 2.5, 1)
+        if st == "s_only":
+            if out:
+                raise Skip("single output")
+            return (lambda v: la.svd(v, compute_uv=False)), R, {}
+        fm = st == "full"
+        if out == 1:
+            return (lambda v: la.svd(v, full_matrices=fm)[1]), R, {}
+        return (lambda v: la.svd(v, full_matrices=fm)[out] ** 2), R, {}
+    raise Skip("no template for " + prim)
+
+
+# ----------------------------------------------------------------------------- fft
+def b_fft(c):
+    prim, kind = c["prim"], c["kind"]
+    ff = np.fft
+    s = tuple(c["s"])
+    x = data(s, 0.3, 2.7, 0, kind == "cc")
+    norm = None if c["st"] == "none" else c["st"]
+    if prim in ("fft", "ifft", "rfft", "irfft"):
+        n = c["ia"] or None
+        ax = axis_arg(c["ax"])
+        return (lambda v: getattr(ff, prim)(v, n, ax, norm)), x, {}
+    kw = {}
+    if c["tp"]:
+        kw["s"] = tuple(c["tp"])
+    if c["s3"]:
+        kw["axes"] = tuple(c["s3"])
+    if norm is not None:
+        kw["norm"] = norm
+    return (lambda v: getattr(ff, prim)(v, **kw)), x, {}
+
+
+BUILDERS = {"linalg": b_linalg, "fft": b_fft, "index": b_index, "join": b_join, "contract": b_contract, "rearr": b_rearr, "binary": b_binary, "where": b_where, "reduce": b_reduce, "cum": b_cum, "unary": b_unary}
